@@ -413,7 +413,7 @@ func replayHistory(c *core.Ctx, idx int64, ops []psOp) {
 		case "Path.Equals":
 			p, q := o.paths[0], o.paths[1]
 			if !p.exact || !q.exact {
-				c.Count("ps:path-equals-skipped-negative-zero")
+				c.Count("ps:path-equals-skipped-inexact-key-spelling")
 				continue
 			}
 			var got bool
@@ -427,7 +427,7 @@ func replayHistory(c *core.Ctx, idx int64, ops []psOp) {
 		case "Path.HasPrefix":
 			p, q := o.paths[0], o.paths[1]
 			if !p.exact || !q.exact {
-				c.Count("ps:path-equals-skipped-negative-zero")
+				c.Count("ps:path-equals-skipped-inexact-key-spelling")
 				continue
 			}
 			var got bool
